@@ -783,7 +783,9 @@ class Engine:
         if process_updates:
             for path, process in process_updates:
                 assoc_path(self.processes, path, process)
-                self._add_process_path(process, path, {})
+                # (a step listed among the processes finds its
+                # dependencies in the flow, updated above)
+                self._add_process_path(process, path, self.flow)
 
         if step_updates:
             for path, step in step_updates:
